@@ -22,7 +22,7 @@ def IntTy.row (ty : IntTy) : String × String × String × String :=
 
 def expectedConstTable : List (String × String × String × String) :=
   intTypes.map IntTy.row ++
-  [("F32", "float32", "$(%s)", "4"), ("F64", "float64", "$(%s)", "8"), ("String", "string", "$%q", "len(s)")]
+  [("F32", "float32", "$(%s)", "4"), ("F64", "float64", "$(%s)", "8"), ("String", "string", "$%+q", "len(s)")]
 
 /-- The source declares exactly the constant types of the model, with the
 verbs and sizes the model assumes. -/
